@@ -192,9 +192,8 @@ impl Info<f64> for SI {
         i.gap_abs = kani::any();
         i.gap_rel = kani::any();
         i.ktratio = kani::any();
-        let t: f64 = kani::any();
-        kani::assume(t >= i.solve_time);
-        i.solve_time = t;
+        // as DefaultInfo::update does: solve_time = timers.total_time() (model: the flushed time)
+        i.solve_time = unsafe { FLUSHED } as f64;
         let sc: [f64; 5] = kani::any();
         dh::residuals_set_scalars(&mut self.res, sc);
     }
@@ -207,7 +206,8 @@ impl Info<f64> for SI {
         }
         self.checks += 1;
         let r = self.real.check_termination(&self.res, s, iter); // REAL
-        if self.real.solve_time > self.time_limit {
+        // the limit is exceeded on the user's stopwatch (not only on the possibly stale reported time)
+        if (true_elapsed() as f64) > self.time_limit {
             self.overtime_seen = true;
         }
         r
@@ -238,11 +238,73 @@ impl Solution<f64> for SS {
     fn finalize(&mut self, _i: &SI) {}
 }
 
-// ---- environment stubs: the wall clock / timer registry (HashMap of Instants) ----
-pub fn stub_timer_key(_t: &mut Timers, _k: &'static str) {}
-pub fn stub_timer(_t: &mut Timers) {}
+// ---- environment model: the wall clock and the timer registry ---------------------------------
+// The real `Timers` is a tree of HashMaps of `Instant`s (not executable by the model checker).  It is
+// replaced by a model of its documented behaviour for the top-level "solve" timer:
+//   * the clock NOW is an arbitrary non-decreasing reading (every timer call may advance it),
+//   * elapsed time of a running timer is accumulated only when it is stopped or SUSPENDED
+//     (`suspend` adds now-start to `elapsed`, `resume` restarts from now),
+//   * `total_time()` reports the accumulated (flushed) time only.
+// So the solve time the termination check sees is the time flushed at the last suspend/stop, and the
+// main loop has to pause the timers (notimeit!) once per iteration for time limits to work at all.
+static mut NOW: u64 = 0; // ghost wall clock (ticks)
+static mut START: u64 = 0; // start of the currently running interval of the "solve" timer
+static mut FLUSHED: u64 = 0; // accumulated elapsed time visible through total_time()
+static mut DEPTH: u32 = 0;
+
+fn tick() {
+    unsafe {
+        let dt: u32 = kani::any();
+        NOW += dt as u64;
+    }
+}
+pub fn stub_start(_t: &mut Timers, _k: &'static str) {
+    tick();
+    unsafe {
+        if DEPTH == 0 {
+            START = NOW;
+        }
+        DEPTH += 1;
+    }
+}
+pub fn stub_stop(_t: &mut Timers) {
+    tick();
+    unsafe {
+        DEPTH -= 1;
+        if DEPTH == 0 {
+            FLUSHED += NOW - START;
+        }
+    }
+}
+pub fn stub_suspend(_t: &mut Timers) {
+    tick();
+    unsafe {
+        if DEPTH > 0 {
+            FLUSHED += NOW - START;
+        }
+    }
+}
+pub fn stub_resume(_t: &mut Timers) {
+    tick();
+    unsafe {
+        if DEPTH > 0 {
+            START = NOW;
+        }
+    }
+}
+pub fn stub_reset(_t: &mut Timers, _k: &'static str) {}
 pub fn stub_total_time(_t: &Timers) -> std::time::Duration {
-    std::time::Duration::ZERO
+    std::time::Duration::ZERO // not used: the stub Info::update reads the model's FLUSHED directly
+}
+/// true elapsed time of the solve so far (what a stopwatch held by the user would show)
+fn true_elapsed() -> u64 {
+    unsafe {
+        if DEPTH > 0 {
+            FLUSHED + (NOW - START)
+        } else {
+            FLUSHED
+        }
+    }
 }
 pub fn stub_random_state() -> std::collections::hash_map::RandomState {
     // fixed keys: only so that the (never used) HashMap inside Timers::default() can be built
@@ -295,9 +357,11 @@ fn run_loop(max_iter_bound: u32, symmetric: bool, pd_scaling: bool) {
     assert!(i.real.iterations <= max_iter, "reported_iterations_never_exceed_max_iter");
     assert!(i.checks <= max_iter + 2, "at_most_max_iter_plus_two_passes_(one_strategy_switch)");
     assert!(!i.entered_not_unsolved, "every_termination_check_starts_from_status_Unsolved");
-    assert!(i.checks_after_overtime <= 1, "after_the_time_limit_is_exceeded_at_most_one_more_pass_(strategy_switch)");
-    if i.checks_after_overtime == 1 {
-        assert!(!symmetric && pd_scaling, "a_pass_after_the_time_limit_only_through_the_scaling_strategy_switch");
+    // the reported time lags the stopwatch by at most one iteration (it is flushed when the timers are
+    // paused for printing), and one more pass is possible through the scaling-strategy switch
+    assert!(i.checks_after_overtime <= 2, "after_the_time_limit_is_exceeded_at_most_two_more_passes");
+    if i.checks_after_overtime == 2 {
+        assert!(!symmetric && pd_scaling, "a_second_pass_after_the_time_limit_only_through_the_scaling_strategy_switch");
     }
     assert!(solver.timers.is_some(), "timers_returned_to_the_solver");
     kani::cover!(st == SolverStatus::MaxIterations, "MaxIterations");
@@ -313,11 +377,11 @@ macro_rules! loop_harness {
     ($name:ident, $mi:expr, $sym:expr, $pd:expr, $unwind:expr) => {
         #[kani::proof]
         #[kani::unwind($unwind)]
-        #[kani::stub(clarabel::timers::Timers::start_as_current, stub_timer_key)]
-        #[kani::stub(clarabel::timers::Timers::reset_timer, stub_timer_key)]
-        #[kani::stub(clarabel::timers::Timers::stop_current, stub_timer)]
-        #[kani::stub(clarabel::timers::Timers::suspend, stub_timer)]
-        #[kani::stub(clarabel::timers::Timers::resume, stub_timer)]
+        #[kani::stub(clarabel::timers::Timers::start_as_current, stub_start)]
+        #[kani::stub(clarabel::timers::Timers::reset_timer, stub_reset)]
+        #[kani::stub(clarabel::timers::Timers::stop_current, stub_stop)]
+        #[kani::stub(clarabel::timers::Timers::suspend, stub_suspend)]
+        #[kani::stub(clarabel::timers::Timers::resume, stub_resume)]
         #[kani::stub(clarabel::timers::Timers::total_time, stub_total_time)]
         #[kani::stub(std::collections::hash_map::RandomState::new, stub_random_state)]
         pub fn $name() {
